@@ -2,6 +2,7 @@ package main
 
 import (
 	"archive/tar"
+	"archive/zip"
 	"bytes"
 	"context"
 	"fmt"
@@ -512,6 +513,8 @@ func cacheEngine(c *Ctx) {
 				cacheKeyedLookup(c, op)
 			} else if strings.HasPrefix(op, "cache-rejectsame ") {
 				cacheRejectSame(c, op)
+			} else if strings.HasPrefix(op, "cache-foreignfilter ") {
+				cacheForeignFilter(c, op)
 			} else if strings.HasPrefix(op, "cache-commitfails ") {
 				cacheCommitFails(c, op)
 			}
@@ -525,6 +528,8 @@ func cacheEngine(c *Ctx) {
 		cacheCommitFails(c, fmt.Sprintf("cache-commitfails %s %s %s", []string{"tar", "zip"}[i%2], how, []string{"none", "copy", "mount", "copy", "none", "none", "none", "copy"}[i]))
 	}
 	cacheKeyedLookup(c, "cache-keyedlookup tar")
+	cacheForeignFilter(c, "cache-foreignfilter tar")
+	cacheForeignFilter(c, "cache-foreignfilter zip")
 	for k := 0; k < 4; k++ {
 		cacheRejectSame(c, fmt.Sprintf("cache-rejectsame %d", k))
 	}
@@ -724,6 +729,75 @@ func cacheRejectSame(c *Ctx, op string) {
 		c.H(fmt.Sprintf("rejectsame:%d:%s:%s", k%4, fl[len(fl)-22:], cold))
 		if cold != warm || cold != direct {
 			c.PropFail("filter-warm-cache", fmt.Sprintf("the same ware and the same filter (%s): cold cache answers %s, a cache already holding the ware answers %s, direct placement answers %s", fl, cold, warm, direct), op)
+		}
+	}
+}
+
+// cacheForeignFilter: an archive as foreign tools write it — no entry for the root, none for any directory — unpacked with
+// filters that set owners and times: the id the unpack reports is the tree hash of what it materialised (implied
+// directories included: they get the filter's owner and time like every entry). Independent reference hash of a raw walk
+// of the destination. Recipe: "cache-foreignfilter <tar|zip>".
+func cacheForeignFilter(c *Ctx, op string) {
+	c.Begin(op)
+	fmtName := strings.Fields(op)[1]
+	caseCounter++
+	base := filepath.Join(c.Work, fmt.Sprintf("cff%d", caseCounter))
+	defer rmrf(base)
+	os.MkdirAll(base, 0755)
+	var buf bytes.Buffer
+	t0 := time.Unix(1.1e9, 0)
+	files := []string{"d/f", "d/e/g", "top", "z/y/x/w"}
+	if fmtName == "tar" {
+		tw := tar.NewWriter(&buf)
+		for _, n := range files {
+			tw.WriteHeader(&tar.Header{Name: n, Typeflag: tar.TypeReg, Mode: 0644, Uid: 77, Gid: 78, ModTime: t0, Size: int64(len(n))})
+			tw.Write([]byte(n))
+		}
+		tw.Close()
+	} else {
+		zw := zip.NewWriter(&buf)
+		for _, n := range files {
+			h := &zip.FileHeader{Name: n, Method: zip.Deflate, Modified: t0}
+			h.SetMode(0644)
+			w, _ := zw.CreateHeader(h)
+			w.Write([]byte(n))
+		}
+		zw.Close()
+	}
+	ware := filepath.Join(base, "foreign."+fmtName)
+	os.WriteFile(ware, buf.Bytes(), 0644)
+	wh := []api.WarehouseLocation{api.WarehouseLocation("file://" + ware)}
+	fn := funcsFor(fmtName)
+	ctx := context.Background()
+	c.EmitR(op, "skip", "skip")
+	id, err, _ := safeCall(func() (api.WareID, error) {
+		return fn.scan(ctx, api.PackType(fmtName), api.MustParseFilesetUnpackFilter(losslessUnpackStr), rio.Placement_None, wh[0], rio.Monitor{})
+	})
+	if err != nil {
+		c.H("foreignfilter:" + fmtName + ":scan-failed")
+		return
+	}
+	n := 0
+	for _, fl := range []string{losslessUnpackStr, "uid=4000,gid=4001,mtime=@1234567,sticky=follow,setid=follow,dev=follow", "uid=mine,gid=mine,mtime=follow,sticky=follow,setid=follow,dev=follow", "uid=follow,gid=9,mtime=@5,sticky=ignore,setid=ignore,dev=ignore"} {
+		for _, mode := range []rio.PlacementMode{rio.Placement_Direct, rio.Placement_Copy} {
+			n++
+			os.Setenv("RIO_CACHE", filepath.Join(base, fmt.Sprintf("cache%d", n)))
+			dst := filepath.Join(base, fmt.Sprintf("dst%d", n))
+			got, uerr, pan := safeCall(func() (api.WareID, error) {
+				return fn.unpack(ctx, id, dst, api.MustParseFilesetUnpackFilter(fl), mode, wh, rio.Monitor{})
+			})
+			c.H("foreignfilter:" + fmtName + ":" + strings.Fields(resTok(got, uerr, pan))[0])
+			if uerr != nil || pan != "" {
+				c.PropFail("filter-refused-valid", fmt.Sprintf("a %s archive without directory entries, unpacked (%s) with %s: %s", fmtName, mode, fl, resTok(got, uerr, pan)), op)
+				continue
+			}
+			sn, e := Snapshot(dst)
+			if e != nil {
+				continue
+			}
+			if want := b58(RefTreeHash(rootFirst(sn), sha384)); want != got.Hash {
+				c.PropFail("filter-attr", fmt.Sprintf("a %s archive without directory entries, unpacked (%s) with %s: the unpack reports %s, the tree it materialised hashes to %s (an implied directory was hashed with other attributes than it was given)", fmtName, mode, fl, got.Hash, want), op)
+			}
 		}
 	}
 }
